@@ -127,7 +127,9 @@ struct Result {
         extra[k] = "\"" + JsonEscape(v) + "\"";
     }
     // Violations are de-duplicated by key; at most 200 distinct keys are kept.
+    u64 violation_events = 0; // every call, also the ones folded into an existing class (BFS engines: "did this transition violate?")
     void AddViolation(const std::string& key, const std::string& text, const std::string& replay) {
+        ++violation_events;
         auto& c = violation_class_counts[key];
         if (c++ == 0 && violations.size() < 200)
             violations.push_back({key, text, replay});
